@@ -244,23 +244,24 @@ func child(path string) {
 	for r := 0; r < in.Rounds; r++ {
 		res := make([]outcome, len(in.Texts))
 		var wg sync.WaitGroup
-		ch := make(chan int)
 		start := make(chan struct{})
+		// Every goroutine parses a fixed share of the texts (index = g modulo the number of goroutines,
+		// rotated per round) with no communication in between: handing the indices out over an unbuffered
+		// channel would order the parses of different goroutines through the dispatcher (receive happens
+		// before the completion of the send), and the race detector would see almost nothing as concurrent.
 		for g := 0; g < in.Goroutines; g++ {
 			wg.Add(1)
-			go func() {
+			go func(g int) {
 				defer wg.Done()
 				<-start
-				for i := range ch {
-					res[i] = parseString(in.Texts[i])
+				for i := range in.Texts {
+					if (i+r)%in.Goroutines == g {
+						res[i] = parseString(in.Texts[i])
+					}
 				}
-			}()
+			}(g)
 		}
 		close(start)
-		for i := range in.Texts {
-			ch <- i
-		}
-		close(ch)
 		wg.Wait()
 		out.Conc = append(out.Conc, res)
 	}
@@ -452,6 +453,11 @@ func Run(tier, replay string) {
 		// sample of the Modules.tla feature matrix
 		for _, in := range corpus.Clang("-O1 -g") {
 			inputs = append(inputs, input{name: "clang/" + in.Name, text: in.Text})
+		}
+		// quoted names and strings with escapes, each module with its own bytes (decoding state shared
+		// between parses would show between goroutines)
+		for _, in := range corpus.EscapeModules(16) {
+			inputs = append(inputs, input{name: "escapes/" + in.Name, text: in.Text})
 		}
 		mv := modgen.Generate(rep, "*")
 		step := 9
